@@ -186,6 +186,31 @@ class _CompositePersistence(AbstractPersistence):
 def _to_json(data):
     return json.dumps(data, separators=(",", ":"), ensure_ascii=True)
 
+
+def _escape_column(value):
+    """Tabs and line ends would break the tab-separated line"""
+    return (value.replace("\\", "\\\\").replace("\t", "\\t")
+            .replace("\n", "\\n").replace("\r", "\\r"))
+
+
+_ESCAPED = {"t": "\t", "n": "\n", "r": "\r", "\\": "\\"}
+
+
+def _unescape_column(value):
+    if "\\" not in value:
+        return value
+    result = []
+    i = 0
+    while i < len(value):
+        char = value[i]
+        if char == "\\" and i + 1 < len(value) and value[i + 1] in _ESCAPED:
+            result.append(_ESCAPED[value[i + 1]])
+            i += 2
+        else:
+            result.append(char)
+            i += 1
+    return "".join(result)
+
 _METADATA_RUN_ID = "# run_id: "
 _METADATA_BENCHMARK = "# benchmark: "
 
@@ -354,7 +379,8 @@ class _FilePersistence(_ConcretePersistence):
     def _parse_data_line(
             self, data_point, line, line_number, runs, filtered_data_file, previous_run_id):
         measurement = Measurement.from_str_list(
-            self._id_to_run_id, line.rstrip('\n').split(self._SEP),
+            self._id_to_run_id,
+            [_unescape_column(c) for c in line.rstrip('\n').split(self._SEP)],
             line_number, self._data_filename)
 
         run_id = measurement.run_id
@@ -437,7 +463,8 @@ class _FilePersistence(_ConcretePersistence):
     def _persists_data_point_in_open_file(self, data_point: DataPoint):
         run_id_id = self._ensure_run_id_is_persisted(data_point.run_id)
         for measurement in data_point.get_measurements():
-            line = self._SEP.join(measurement.as_str_list(run_id_id))
+            line = self._SEP.join(
+                [_escape_column(c) for c in measurement.as_str_list(run_id_id)])
             self._file.write(line + "\n") # type: ignore
 
     def persist_data_point(self, data_point: DataPoint):
